@@ -38,15 +38,40 @@ THEOREMS_FOR = {
     "C05": THEOREMS_EQ + _Q(["gen_track_safe", "gen_beat_safe", "gen_ovw_safe_partial", "gen_cues_safe_partial",
                              "gen_loops_safe_partial"]),
 }
+# ---- schema 1.x: lean/EngineModel/Gen/ImplV1Gen.lean (tools/tr_blobs_v1.py), design/codegen_v1.md
+V1_MODULES = ["Proofs.ImplV1Gen", "Proofs.ImplV1GenTransfer"]
+_Q1 = lambda names: ["EngineModel.Gen.ImplV1." + t for t in names]
+# regenerated 1.x decoder = hand model Impl.V1.* (`_partial`: payload below 2^62 / 2^63 / 2^60 / 2^61 bytes)
+THEOREMS_V1_EQ = _Q1(["decodeTrack_eq", "decodeOvw_eq_partial", "decodeHires_eq_partial", "decodeCues_eq_partial",
+                      "decodeLoops_eq_partial"])
+THEOREMS_V1_ENC = _Q1(["encodeTrack_eq"])
+THEOREMS_V1_FOR = {
+    "C02": THEOREMS_V1_EQ + THEOREMS_V1_ENC +
+           _Q1(["gen_v1_track_spec", "gen_v1_ovw_spec_partial", "gen_v1_hires_spec_partial",
+                "gen_v1_cues_spec_partial", "gen_v1_loops_spec_partial"]),
+    "C03": THEOREMS_V1_ENC + _Q1(["gen_v1_track_readback", "gen_v1_track_total"]),
+    "C05": THEOREMS_V1_EQ + _Q1(["gen_v1_track_safe", "gen_v1_ovw_safe_partial", "gen_v1_hires_safe_partial",
+                                 "gen_v1_cues_safe_partial", "gen_v1_loops_safe_partial"]),
+}
+THEOREMS_V1 = sorted(set(sum(THEOREMS_V1_FOR.values(), [])))
+for _k, _v in THEOREMS_V1_FOR.items():
+    THEOREMS_FOR[_k] = THEOREMS_FOR[_k] + _v
+LEAN_MODULES = LEAN_MODULES + V1_MODULES
+THEOREMS_V2 = sorted(set(t for t in sum(THEOREMS_FOR.values(), []) if t not in THEOREMS_V1))
 THEOREMS = sorted(set(sum(THEOREMS_FOR.values(), [])))
 # C04's transfer file imports Properties.C04; the other properties do not see it (statement printing context)
 MODULES_FOR = {"C04": LEAN_MODULES + ["Proofs.ImplV2GenC04"]}
 ALL_MODULES = LEAN_MODULES + ["Proofs.ImplV2GenC04"]
-TRUSTED_EXTRA = ["tools/tr_blobs.py (clang-14 JSON AST of src/djinterop/engine/v2/*_blob.cpp -> cursor-monad definitions; "
+TRUSTED_EXTRA = ["tools/tr_blobs_v1.py (clang-14 JSON AST of src/djinterop/engine/v1/performance_data_format.cpp -> cursor / writer "
+                 "monad definitions; mapping, struct table and default-initialiser check listed in design/codegen_v1.md)",
+                 "tools/tr_blobs.py (clang-14 JSON AST of src/djinterop/engine/v2/*_blob.cpp -> cursor-monad definitions; "
                  "node-kind -> combinator mapping and C++ struct <-> Lean structure table listed in design/codegen.md)"]
 ASSUMPTIONS = [
     "regenerated model: the Lean definitions of lean/EngineModel/Gen/ImplV2Gen.lean are produced from clang's typed AST "
-    "of the working tree on every run; each is proved equal to the hand model Impl.V2.* (Proofs/ImplV2Gen.lean). A "
+    "of the working tree on every run; each is proved equal to the hand model Impl.V2.* (Proofs/ImplV2Gen.lean) "
+    "(1.x: lean/EngineModel/Gen/ImplV1Gen.lean from v1/performance_data_format.cpp, equalities in Proofs/ImplV1Gen.lean for "
+    "the decoders of track / overview / high-res waveform / quick cues / loops data and the track encoder; the 1.x beat codec "
+    "and the other 1.x encoders are regenerated and executed against the library but not proved equal). A "
     "function outside the translator's fragment keeps its last translation (status `unsupported-node: <kind> at "
     "<file:line>` under coverage.translators) and is then tied by the differential run only",
 ]
@@ -58,7 +83,13 @@ def _translate():
     return (r.stdout.strip() or r.stderr.strip()[-300:])
 
 
-TRANSLATORS = {"v2/*_blob.cpp": _translate}
+def _translate_v1():
+    r = subprocess.run([sys.executable, os.path.join(VERIF, "tools", "tr_blobs_v1.py")],
+                       stdout=subprocess.PIPE, stderr=subprocess.PIPE, text=True)
+    return (r.stdout.strip() or r.stderr.strip()[-300:])
+
+
+TRANSLATORS = {"v2/*_blob.cpp": _translate, "v1/performance_data_format.cpp": _translate_v1}
 
 
 # ---------------------------------------------------------------------------------------------
@@ -67,24 +98,36 @@ TRANSLATORS = {"v2/*_blob.cpp": _translate}
 # A divergence here on the unchanged tree means the translator's mapping is wrong (or the C++
 # changed in a way the equality proofs would also reject).
 
-def gen_stream(ctx):
+def gen_stream(ctx, family="v2"):
     import random
     import runner
     from props import _codecs as cd
-    rng = random.Random(ctx.seed * 7368787 + 41)
+    rng = random.Random(ctx.seed * 7368787 + (41 if family == "v2" else 43))
     hist = {}
     g = cd.Gen(rng, hist)
     per = 25 if ctx.tier == "quick" else 120
     vals = []
-    for k in cd.KINDS_V2:
+    kinds = cd.KINDS_V2 if family == "v2" else cd.KINDS_V1
+    tag = "gen" if family == "v2" else "gen1"
+    encc, decc = ("genc", "gdec") if family == "v2" else ("g1enc", "g1dec")
+    for k in kinds:
         for _ in range(per):
             vals.append((k, g.value(k)))
     # label lengths around the 255 limit (the encoders' only rejection)
     for L in (0, 1, 254, 255, 256, 300):
-        vals.append(("v2.cues", g.v2_cues([L, 2])))
-        vals.append(("v2.loops", g.v2_loops([1, L])))
+        if family == "v2":
+            vals.append(("v2.cues", g.v2_cues([L, 2])))
+            vals.append(("v2.loops", g.v2_loops([1, L])))
+        else:
+            vals.append(("v1.cues", g.v1_cues([L, 2, 1, 1, 1, 1, 1, 1])))
+            vals.append(("v1.loops", g.v1_loops([1, L, 3, 1, 1, 1, 1, 1])))
+    if family == "v1":
+        # slot counts around 8, the encoders' rejections of grids (1 marker, unsorted, wide gap) come from g.value
+        for n in (0, 7, 9, 12):
+            vals.append(("v1.cues", g.v1_cues([2] * n)))
+            vals.append(("v1.loops", g.v1_loops([2] * n)))
     enc_h = ["enc %s %s" % (k, cd.enc_text(k, v)) for k, v in vals]
-    enc_m = ["genc %s %s" % (k, cd.enc_text(k, v)) for k, v in vals]
+    enc_m = ["%s %s %s" % (encc, k, cd.enc_text(k, v)) for k, v in vals]
     ho = [o for (outs, _) in runner.run_harness(runner.shard(enc_h, NCPU), stateless=True, watchdog=20) for o in outs]
     mo = [o for outs in runner.run_model(runner.shard(enc_m, NCPU)) for o in outs]
     div = []
@@ -111,13 +154,13 @@ def gen_stream(ctx):
             dec.append((k, b))
         for _ in range(3 if ctx.tier == "quick" else 20):
             dec.append((k, cd.mutate(pl, rng)))
-    for k in cd.KINDS_V2:
+    for k in kinds:
         for b in cd.boundary_payloads(k, rng):
             dec.append((k, b))
         for n in range(0, 48):
             dec.append((k, bytes(rng.getrandbits(8) for _ in range(n))))
     dh = ["dec %s %s" % (k, cd.hexb(b)) for k, b in dec]
-    dm = ["gdec %s %s" % (k, cd.hexb(b)) for k, b in dec]
+    dm = ["%s %s %s" % (decc, k, cd.hexb(b)) for k, b in dec]
     ho = [o for (outs, _) in runner.run_harness(runner.shard(dh, NCPU), stateless=True, watchdog=10) for o in outs]
     mo = [o for outs in runner.run_model(runner.shard(dm, NCPU)) for o in outs]
     cls = {}
@@ -127,27 +170,28 @@ def gen_stream(ctx):
         if h != m:
             div.append({"input": l[:300], "impl": h[:200], "model": "(regenerated) " + m[:200]})
     return {"evaluations": len(enc_h) + len(dh), "divergences": div,
-            "histograms": dict({"gen:enc_ok": n_enc_ok, "gen:enc_throw": n_enc_throw, "gen:dec_inputs": len(dh)},
-                               **{"gen:dec_outcome:" + k: v for k, v in cls.items()})}
+            "histograms": dict({tag + ":enc_ok": n_enc_ok, tag + ":enc_throw": n_enc_throw, tag + ":dec_inputs": len(dh)},
+                               **{tag + ":dec_outcome:" + k: v for k, v in cls.items()})}
 
 
 def wrap_tie(tie):
     """tie' = tie + the stream above (its divergences are divergences of the property's tie)."""
     def tie2(ctx):
         res = tie(ctx)
-        try:
-            g = gen_stream(ctx)
-        except Exception as e:            # e.g. the regenerated model no longer compiles into the driver
-            import traceback
-            g = {"evaluations": 0, "divergences": [{"input": "gen-stream", "impl": "-", "model": "crash: %r" % (e,)}],
-                 "histograms": {"gen:crash": 1}, "crash": traceback.format_exc()}
-        res["evaluations"] = int(res.get("evaluations", 0)) + g["evaluations"]
-        res.setdefault("histograms", {}).update(g["histograms"])
-        if g["divergences"]:
-            res["ok"] = False
-            res["divergences"] = list(res.get("divergences", [])) + g["divergences"][:10]
+        for family in ("v2", "v1"):
+            try:
+                g = gen_stream(ctx, family)
+            except Exception as e:            # e.g. the regenerated model no longer compiles into the driver
+                import traceback
+                g = {"evaluations": 0, "divergences": [{"input": "gen-stream " + family, "impl": "-", "model": "crash: %r" % (e,)}],
+                     "histograms": {"gen:crash:" + family: 1}, "crash": traceback.format_exc()}
+            res["evaluations"] = int(res.get("evaluations", 0)) + g["evaluations"]
+            res.setdefault("histograms", {}).update(g["histograms"])
+            if g["divergences"]:
+                res["ok"] = False
+                res["divergences"] = list(res.get("divergences", [])) + g["divergences"][:10]
         res["rule"] = (res.get("rule", "") + "; plus the model regenerated from the C++ sources (gdec / genc) against the "
-                       "real library on generated 2.x values, their truncations / corruptions / mutations, boundary "
+                       "real library on generated 2.x and 1.x (g1dec / g1enc) values, their truncations / corruptions / mutations, boundary "
                        "counts and random short inputs (outcome text must be identical)")
         return res
     return tie2
@@ -158,5 +202,7 @@ if __name__ == "__main__" and sys.argv[1:2] == ["lock"]:
     lb = audit.lake_build()
     if not lb["ok"]:
         raise SystemExit("lake build failed:\n" + lb["log"])
-    l = audit.write_lock("ImplV2Gen", THEOREMS, imports=tuple(ALL_MODULES))
+    l = audit.write_lock("ImplV2Gen", THEOREMS_V2, imports=tuple(ALL_MODULES))
     print("locked %d statements (lean/Properties/locks/ImplV2Gen.json)" % len(l))
+    l = audit.write_lock("ImplV1Gen", THEOREMS_V1, imports=tuple(ALL_MODULES))
+    print("locked %d statements (lean/Properties/locks/ImplV1Gen.json)" % len(l))
